@@ -68,7 +68,10 @@ impl MemoHeader {
             self.revisions.changed_at,
         );
 
-        if self.revisions.changed_at > revisions.changed_at {
+        // The `changed_at` of a memo that took part in a cycle is not exact: cycle participants are
+        // never backdated, so it may be later than what the same value is stamped with once the
+        // cycle has dissolved. That is not a sign of non-determinism.
+        if self.revisions.changed_at > revisions.changed_at && !self.was_cycle_participant() {
             report_backdate_violation(index, self.revisions.changed_at, revisions.changed_at);
         }
 
